@@ -943,6 +943,51 @@ func (fc *FnCtx) unknownCall(ci calleeInfo, in ssa.Instruction, st *State, resT 
 			}
 		}
 	}
+	// ... and so may whatever a pointer handed to it points to (directly, or boxed in an
+	// interface: json Decode(&v), binary.Read(r, order, &x), fmt.Sscan(&n)), unless the
+	// pointee is an object of this repository with methods (covered by the callback rule) or
+	// the receiver of the call
+	if !(ci.fn != nil && ci.fn.Pkg != nil && strings.HasPrefix(ci.fn.Pkg.Pkg.Path(), "github.com/apernet/hysteria")) && !callback {
+		for i, a := range ci.args {
+			if i == 0 && ci.fn != nil && ci.fn.Signature.Recv() != nil {
+				continue
+			}
+			p := a
+			if a.K == KIface {
+				b, ok := fc.eng.boxes[a.S]
+				if !ok || b.K != KPtr {
+					continue
+				}
+				p = b
+			}
+			if p.K != KPtr || p.T == nil {
+				continue
+			}
+			pt, isPtr := p.T.Underlying().(*types.Pointer)
+			if !isPtr {
+				continue
+			}
+			if n, isNamed := types.Unalias(pt.Elem()).(*types.Named); isNamed && n.Obj().Pkg() != nil &&
+				!(strings.HasPrefix(n.Obj().Pkg().Path(), "github.com/apernet/hysteria") && n.NumMethods() == 0) {
+				continue // a library object (opaque here) or an object of this repository with methods (callback rule)
+			}
+			var ts []WTarget
+			func() {
+				defer func() { recover() }() // pointee shapes objectTargets does not cover are left alone
+				if p.Loc != nil {
+					for _, lf := range cellLeaves(pt.Elem()) {
+						ts = append(ts, WTarget{Region: p.Loc.Prefix + lf.suffix, Idx: p.Loc.Idx})
+					}
+				} else if p.S != "" {
+					ts = fc.objectTargets(p.S, pt.Elem())
+				}
+			}()
+			if len(ts) > 0 {
+				fc.note("%s is handed a pointer: what it points to is havocked at the call", ci.name)
+				fc.havoc(st, ts)
+			}
+		}
+	}
 	na := fc.vc.sc.fresh("NA", "Int")
 	fc.vc.sc.assert(app(">=", na, st.NA))
 	st.NA = na
